@@ -195,7 +195,7 @@ def basis_specs(rng, thorough):
     for k1, k2 in itertools.product(SHELL_KINDS, repeat=2):
         for c1, c2 in ((1, 1), (1, 2), (2, 1)):
             specs.append([(c1, k1), (c2, k2)])
-    n3 = 3000 if thorough else 300
+    n3 = 20000 if thorough else 300
     for _ in range(n3):
         n = rng.choice([3, 3, 4, 5])
         specs.append([(rng.randint(1, 2), rng.choice(SHELL_KINDS)) for _ in range(n)])
